@@ -24,16 +24,48 @@
  *                     (= full cache reset + config_patch_config)
  * attr: U:hex H:hex Q:hex C:hex M:hex S:hex  I:<4|6>:<addrhex>:<strhex>  R:<namehex>:<valhex>
  * After every op the whole cond_cache of the slot is printed (result,local_result per node).
+ *
+ * Mini server (whole request pipeline, no sockets):
+ *   srv <cfghex> <node0> ... <nodeN-1> / <req> ...
+ * the REAL parser, config_set_defaults, the real set_defaults of mod_extforward / mod_rewrite /
+ * mod_setenv in the order of server.modules, the real plugin dispatch and the real
+ * http_response_handler() (http_response_config, uri_raw hooks: extforward rewrites remote
+ * address + scheme, mod_rewrite rewrites the target and returns HANDLER_COMEBACK ->
+ * http_response_comeback() restarts the request, uri_clean: mod_setenv patches its config, ...).
+ * A probe plugin (last module) evaluates every block in the docroot hook.
+ *   <req> = q,<peerhex>,<h1 head block hex>,<model attrs>,<model attrs>   (last two: Lean model only)
+ *   -> "c<server.name>.<server.tag>.<max-request-size>,e<setenv x3>,d<config_check_cond of every
+ *       block at the docroot hook>,<scheme>,<uri.path>,<uri.query>,<remote address>" at the end
+ *   @DOCROOT@ in the configuration is replaced by $LTV_C14_ROOT/docroot (an empty directory
+ *   prepared by the check module).
  */
 #include "first.h"
 #include "configfile-glue.c"
 #include "configfile.c"
 #include "configparser.c"
-#include "mod_setenv.c"
+#include "mod_setenv.c"        /* plugin_data / plugin_config / handler_ctx below are mod_setenv's */
 #include "response.c"          /* static http_response_config() */
-#define plugin_data h2_plugin_data   /* both TUs define a local plugin_data type */
+#define plugin_data h2_plugin_data   /* each module TU defines local types of the same names */
 #include "h2.c"
 #undef plugin_data
+#define plugin_config rw_plugin_config
+#define plugin_data   rw_plugin_data
+#include "mod_rewrite.c"
+#undef plugin_config
+#undef plugin_data
+#define plugin_config     xf_plugin_config
+#define plugin_data       xf_plugin_data
+#define handler_ctx       xf_handler_ctx
+#define handler_ctx_init  xf_handler_ctx_init
+#define handler_ctx_free  xf_handler_ctx_free
+#include "mod_extforward.c"
+#undef plugin_config
+#undef plugin_data
+#undef handler_ctx
+#undef handler_ctx_init
+#undef handler_ctx_free
+#include "plugins.h"
+#include "stat_cache.h"
 #include <stdio.h>
 #include <unistd.h>
 #include <sys/mman.h>       /* memfd_create */
@@ -277,7 +309,8 @@ static int run_op(char *op) {
       case 'k': {
         if (nf != 3) return 0;
         int i = atoi(f[2]);
-        if (i < 1 || (uint32_t)i >= used) return 0;
+        if (i < 1) return 0;
+        if ((uint32_t)i >= used) { fputs(" k-=", stdout); break; }  /* no such block was built */
         printf(" k%d=", config_check_cond(r, i));
         break;
       }
@@ -377,10 +410,202 @@ static int run_op(char *op) {
     return 1;
 }
 
+/* ---------------------------------------------------------------- mini server */
+static char docroot[600];
+static int con_up;
+static char probe_bits[4096];
+static buffer probe_attr[4];    /* scheme, path, query, remote address at the docroot hook */
+
+static handler_t probe_docroot(request_st *r, void *p_d) {
+    (void)p_d;
+    const uint32_t used = srv->config_context->used;
+    uint32_t i;
+    for (i = 1; i < used && i < sizeof(probe_bits); ++i)
+        probe_bits[i-1] = config_check_cond(r, (int)i) ? '1' : '0';
+    probe_bits[i-1] = 0;
+    copybuf(&probe_attr[0], &r->uri.scheme);
+    copybuf(&probe_attr[1], &r->uri.path);
+    copybuf(&probe_attr[2], &r->uri.query);
+    copybuf(&probe_attr[3], r->dst_addr_buf);
+    return HANDLER_GO_ON;
+}
+static void *probe_init(void) { return ck_calloc(1, sizeof(plugin_data_base)); }
+static int probe_plugin_init(plugin *p) {
+    p->version = LIGHTTPD_VERSION_ID;
+    p->name = "ltvprobe";
+    p->init = probe_init;
+    p->handle_docroot = probe_docroot;
+    return 0;
+}
+
+static const struct { const char *name; int (*init)(plugin *p); } modtab[] = {
+    { "mod_extforward", mod_extforward_plugin_init },
+    { "mod_rewrite",    mod_rewrite_plugin_init },
+    { "mod_setenv",     mod_setenv_plugin_init },
+    { NULL, NULL }
+};
+
+/* plugins_load() without dlopen(): modules compiled into this harness, in the order of
+ * server.modules as finalised by configfile.c; the probe comes last */
+static int mods_load(void) {
+    srv->plugins.ptr = ck_calloc(srv->srvconf.modules->used + 2, sizeof(plugin *));
+    for (uint32_t i = 0; i <= srv->srvconf.modules->used; ++i) {
+        int (*init)(plugin *p) = probe_plugin_init;
+        if (i < srv->srvconf.modules->used) {
+            const buffer *m = &((data_string *)srv->srvconf.modules->data[i])->value;
+            int j;
+            for (j = 0; modtab[j].name; ++j)
+                if (buffer_eq_slen(m, modtab[j].name, strlen(modtab[j].name))) break;
+            if (NULL == modtab[j].name) {
+                /* (mod_h2 is appended by configfile.c; requests enter below the framing layer) */
+                if (buffer_eq_slen(m, CONST_STR_LEN("mod_h2"))) continue;
+                return 0;
+            }
+            init = modtab[j].init;
+        }
+        plugin *p = ck_calloc(1, sizeof(plugin));
+        if (init(p)) { free(p); return 0; }
+        ((plugin **)srv->plugins.ptr)[srv->plugins.used++] = p;
+    }
+    return 1;
+}
+
+static void srv_free(void) {
+    if (NULL == srv) return;
+    if (con_up) {
+        request_st * const r = &con.request;
+        request_reset(r);
+        plugins_call_handle_connection_close(&con);
+        request_free_data(r);
+        free(con.plugin_ctx);
+        free(con.dst_addr_buf.ptr);
+        buffer_free(ssock.srv_token);
+        memset(&con, 0, sizeof(con));
+        con_up = 0;
+    }
+    stat_cache_free();
+    if (srv->plugin_slots) plugins_free(srv);
+    config_free(srv);
+    config_reference.data = NULL;
+    config_reference.used = 0;
+    buffer_free(srv->tmp_buf);
+    free(srv);
+    srv = NULL;
+}
+
+static int srv_init(const unsigned char *cfg, size_t len) {
+    buffer *txt = buffer_init();
+    for (size_t i = 0; i < len; ) {
+        if (len - i >= 9 && 0 == memcmp(cfg + i, "@DOCROOT@", 9)) { buffer_append_string(txt, docroot); i += 9; }
+        else { buffer_append_char(txt, (char)cfg[i]); ++i; }
+    }
+    int wr = (0 == ftruncate(cfgfd, 0)
+              && (ssize_t)buffer_clen(txt) == pwrite(cfgfd, txt->ptr, buffer_clen(txt), 0));
+    buffer_free(txt);
+    if (!wr) return 0;
+    srv = ck_calloc(1, sizeof(*srv));
+    srv->tmp_buf = buffer_init();
+    srv->errh = log_set_global_errh(NULL, 0);
+    srv->plugins_request_reset = plugins_call_handle_request_reset;
+    srv->request_env = plugins_call_handle_request_env;
+    config_init(srv);
+    if (0 != config_read(srv, cfgpath)) return 0;
+    if (0 != config_set_defaults(srv)) return 0;
+    if (!mods_load()) return 0;
+    if (HANDLER_GO_ON != plugins_call_init(srv)) return 0;
+    if (HANDLER_GO_ON != plugins_call_set_defaults(srv)) return 0;
+    if (!config_finalize(srv, &default_tag)) return 0;
+    if (!stat_cache_init(NULL, srv->errh)) return 0;
+    memset(&con, 0, sizeof(con));
+    memset(&ssock, 0, sizeof(ssock));
+    ssock.srv_token = buffer_init();
+    buffer_copy_string_len(ssock.srv_token, CONST_STR_LEN(":80"));
+    con.srv = srv;
+    con.fd = -1;
+    con.config_data_base = srv->config_data_base;
+    con.plugin_slots = srv->plugin_slots;
+    con.srv_socket = &ssock;
+    con.proto_default_port = 80;
+    con.plugin_ctx = ck_calloc(srv->plugins.used + 1, sizeof(void *));
+    request_init_data(&con.request, &con, srv);
+    con_up = 1;
+    return 1;
+}
+
+static unsigned short hoff[8192];
+
+static void put_first_value(const array *a) {
+    long v = (a && a->used) ? atol(((const data_string *)a->data[0])->value.ptr + 1) : 0;
+    printf("%ld", v);
+}
+
+static int srv_req(char *req) {
+    request_st * const r = &con.request;
+    char *f[5]; int nf = split(req, ',', f, 5);
+    if (nf < 3 || f[0][0] != 'q') return 0;
+    request_reset(r);
+    r->http_status = 0;
+    size_t pn; unsigned char *peer = unhex(f[1], &pn);
+    if (!buffer_eq_slen(&con.dst_addr_buf, (char *)peer, pn)) {
+        /* another client = a new connection (connection_accepted()) */
+        plugins_call_handle_connection_close(&con);
+        memset(&con.dst_addr, 0, sizeof(con.dst_addr));
+        if (1 != sock_addr_inet_pton(&con.dst_addr, (const char *)peer, AF_INET, 40000)
+            && 1 != sock_addr_inet_pton(&con.dst_addr, (const char *)peer, AF_INET6, 40000)) {
+            free(peer); return 0;
+        }
+        buffer_copy_string_len(&con.dst_addr_buf, (const char *)peer, pn);
+        con.proto_default_port = 80;
+    }
+    free(peer);
+    r->conditional_is_valid = (1 << COMP_SERVER_SOCKET) | (1 << COMP_HTTP_REMOTE_IP);
+    config_cond_cache_reset(r);
+    size_t n; unsigned char *blk = unhex(f[2], &n);
+    hoff[0] = 1; hoff[1] = 0;
+    uint32_t hlen = http_header_parse_hoff((char *)blk, (uint32_t)n, hoff);
+    if (0 == hlen || hoff[0] <= 1 || hlen > r->conf.max_request_field_size
+        || hoff[0] >= sizeof(hoff)/sizeof(hoff[0])-1) { free(blk); return 0; }
+    r->rqst_header_len = hlen;
+    http_request_headers_process(r, (char *)blk, hoff, con.proto_default_port);
+    probe_bits[0] = '-'; probe_bits[1] = 0;
+    for (int i = 0; i < 4; ++i) buffer_clear(&probe_attr[i]);
+    http_response_handler(r);
+    /* settings in force at the end: core (last http_response_config) and mod_setenv (uri_clean) */
+    long v0 = r->conf.server_name ? atol(r->conf.server_name->ptr + 1) : 0;
+    long v1 = (r->conf.server_tag && r->conf.server_tag != &default_tag)
+            ? atol(r->conf.server_tag->ptr + 1) : 0;
+    printf(" c%ld.%ld.%ld,e", v0, v1, (long)r->conf.max_request_size);
+    const plugin_data *sp = NULL;
+    for (uint32_t i = 0; i < srv->plugins.used; ++i) {
+        const plugin *p = ((plugin **)srv->plugins.ptr)[i];
+        if (0 == strcmp(p->name, "setenv")) sp = p->data;
+    }
+    const handler_ctx *hctx = sp ? r->plugin_ctx[sp->id] : NULL;
+    if (hctx) {
+        put_first_value(hctx->conf.set_response_header); fputc('.', stdout);
+        put_first_value(hctx->conf.environment); fputc('.', stdout);
+        put_first_value(hctx->conf.set_environment);
+    }
+    else fputc('-', stdout);
+    printf(",d%s", probe_bits);
+    for (int i = 0; i < 4; ++i) {
+        fputc(',', stdout);
+        puthex(probe_attr[i].ptr, buffer_clen(&probe_attr[i]));
+    }
+    free(blk);
+    return 1;
+}
+
 int main(void) {
     cfgfd = memfd_create("ltv-h_cond.conf", 0);
     if (cfgfd < 0) { perror("memfd_create"); return 2; }
     snprintf(cfgpath, sizeof(cfgpath), "/proc/self/fd/%d", cfgfd);
+    const char *root = getenv("LTV_C14_ROOT");
+    if (root && *root) snprintf(docroot, sizeof(docroot), "%s/docroot", root);
+    int nullfd = open("/dev/null", O_WRONLY);
+    log_error_st *gerrh = log_set_global_errh(NULL, 0);
+    if (nullfd >= 0 && !getenv("LTV_C14_DEBUG")) gerrh->fd = nullfd;  /* diagnostics are not observations */
+    chunkqueue_set_tempdirs_default(NULL, 0);
     ssize_t n;
     while ((n = getline(&line, &cap, stdin)) > 0) {
         while (n > 0 && (line[n-1] == '\n' || line[n-1] == '\r')) line[--n] = 0;
@@ -388,12 +613,17 @@ int main(void) {
         char *save = NULL;
         for (char *t = strtok_r(line, " ", &save); t && ntok < MAXTOK; t = strtok_r(NULL, " ", &save))
             tok[ntok++] = t;
-        if (ntok < 3 || 0 != strcmp(tok[0], "c")) { puts("bad-op"); continue; }
+        const int is_srv = (ntok >= 3 && 0 == strcmp(tok[0], "srv"));
+        if (ntok < 3 || (0 != strcmp(tok[0], "c") && !is_srv)) { puts("bad-op"); continue; }
         int sep = -1;
         for (int i = 2; i < ntok; ++i) if (0 == strcmp(tok[i], "/")) { sep = i; break; }
         if (sep < 0) { puts("bad-op"); continue; }
         size_t len; unsigned char *cfg = unhex(tok[1], &len);
-        if (!world_init(cfg, len)) { puts("config-error"); free(cfg); world_free(); continue; }
+        if (is_srv ? (!docroot[0] || !srv_init(cfg, len)) : !world_init(cfg, len)) {
+            puts("config-error"); free(cfg);
+            if (is_srv) srv_free(); else world_free();
+            continue;
+        }
         free(cfg);
         /* run ops into a memory stream so that a bad op yields a single "bad-op" line */
         char *obuf = NULL; size_t olen = 0;
@@ -403,13 +633,13 @@ int main(void) {
         dump_tree();
         fputs(" /", stdout);
         int ok = 1;
-        for (int i = sep + 1; i < ntok && ok; ++i) ok = run_op(tok[i]);
+        for (int i = sep + 1; i < ntok && ok; ++i) ok = is_srv ? srv_req(tok[i]) : run_op(tok[i]);
         fclose(mem);
         stdout = real;
         if (ok) { fwrite(obuf, 1, olen, stdout); fputc('\n', stdout); }
         else puts("bad-op");
         free(obuf);
-        world_free();
+        if (is_srv) srv_free(); else world_free();
     }
     return 0;
 }
